@@ -131,6 +131,10 @@ def cases(seed, tier):
     # always release in the end so that the plan can finish
     inj.append({"id": "rel", "at": {"time": 9.0}, "do": "put", "args": {"signal": "sigS", "value": rng.choice(ok_vals)}})
     inj.sort(key=lambda x: x["at"]["time"])
+    if rng.random() < 0.25:
+        # the watched signal cannot be read at some moment (the suspenders read it for their message): the trip and
+        # the suspension must not depend on that
+        specs["sigS"]["faults"] = {f"get#{rng.choice([0, 0, 1, 2])}": {"kind": "raise", "exc": "RuntimeError"}}
     case["script"].append({"do": "call", "plan": body, "main": True, "inject": inj})
     case["script"].append({"do": "put", "signal": "sigS", "value": rng.choice(vals)})
     yield case
